@@ -778,6 +778,10 @@ def r087(prog, chk, rule="R08.7"):
 
 
 MUTANTS = [
+    M("kerning bucket keys built in set order (mutation scan survivor)", "ufo2ft/featureWriters/kernFeatureWriter.py", "splitKerning",
+      "scripts = tuple(sorted(scripts))", "scripts = tuple(list(scripts))", rule="R08.1"),
+    M("merged bucket keys built in set order", "ufo2ft/featureWriters/kernFeatureWriter.py", "mergeScripts",
+      "result[tuple(sorted(scripts2))].extend(pairs)", "result[tuple(scripts2)].extend(pairs)", rule="R08.1"),
     M("graph colouring visits vertices by degree, ties in set order (seeded C08b)", "ufo2ft/featureWriters/markFeatureWriter.py", "colorGraph",
       "sorted(adjacency)", "sorted(adjacency, key=lambda n: len(adjacency[n]), reverse=True)", rule="R08.1"),
     M("spacing marks memoised on the writer (seeded C08a)", "ufo2ft/featureWriters/kernFeatureWriter.py", "KernFeatureWriter._filterSpacingMarks",
